@@ -69,6 +69,19 @@ func plan(tier string, seed int64) []driver.Case {
 		}
 		cases = append(cases, driver.Case{ID: fmt.Sprintf("chain/%d/%s/%s", i, strings.Join(names, ">"), sc), P: map[string]string{"kind": "sync", "chain": strings.Join(names, ">"), "script": sc.String()}})
 	}
+	// operators that play inner observables one after the other: with an inner observable that
+	// delivers from a goroutine of its own, the producer's Next still returns only once the output
+	// that value gives rise to has been delivered (the inner one has completed)
+	for _, op := range hoOps {
+		for n := 1; n <= maxVals; n++ {
+			for _, gap := range []string{"0", "200"} {
+				for _, end := range []string{"C", "E", "-"} {
+					cases = append(cases, driver.Case{ID: fmt.Sprintf("ho-async-inner/%s/n%d/gap%s/%s", op, n, gap, end),
+						P: map[string]string{"kind": "ho", "op": op, "n": fmt.Sprint(n), "gap": gap, "end": end}})
+				}
+			}
+		}
+	}
 	for _, op := range []string{"ObserveOn", "SubscribeOn", "ToChannel"} {
 		for cp := 1; cp <= maxCap; cp++ {
 			if op == "ToChannel" {
@@ -220,6 +233,78 @@ func runSync(c driver.Case) driver.Result {
 	res.Nontrivial = checked > 0
 	res.Sig = name + "|" + sc.String() + "→" + r.TraceString()
 	res.Sample = map[string]any{"pipeline": name, "script": sc.String(), "producer_calls_checked": checked, "trace": r.TraceString()}
+	return res
+}
+
+var hoOps = []string{"ConcatAll", "FlatMap", "FlatMapWithContext", "FlatMapI", "FlatMapIWithContext"}
+
+func runHO(c driver.Case) driver.Result {
+	op, n, end := c.Get("op"), c.Int("n"), c.Get("end")
+	gap := time.Duration(c.Int("gap")) * time.Microsecond
+	res := driver.Result{Verdict: driver.Held}
+	outer := src.New("outer")
+	var inners []*src.Source
+	var imu sync.Mutex
+	inner := func(v int) ro.Observable[int] {
+		s := src.New(fmt.Sprintf("inner%d", v), src.Script{{K: rec.Next, V: v * 10}, {K: rec.Next, V: v*10 + 1}, {K: rec.Complete}})
+		s.Async, s.Gap, s.Yield = true, gap, true
+		imu.Lock()
+		inners = append(inners, s)
+		imu.Unlock()
+		return s.Observable()
+	}
+	var o ro.Observable[int]
+	switch op {
+	case "ConcatAll":
+		o = ro.ConcatAll[int]()(ro.Map(inner)(outer.Observable()))
+	case "FlatMap":
+		o = ro.FlatMap(inner)(outer.Observable())
+	case "FlatMapWithContext":
+		o = ro.FlatMapWithContext(func(_ context.Context, v int) ro.Observable[int] { return inner(v) })(outer.Observable())
+	case "FlatMapI":
+		o = ro.FlatMapI(func(v int, _ int64) ro.Observable[int] { return inner(v) })(outer.Observable())
+	case "FlatMapIWithContext":
+		o = ro.FlatMapIWithContext(func(_ context.Context, v int, _ int64) ro.Observable[int] { return inner(v) })(outer.Observable())
+	}
+	name := fmt.Sprintf("%s over inner observables that deliver [v0 v1 C] from their own goroutine (gap %s)", op, gap)
+	r := rec.New(op)
+	sub := o.Subscribe(rec.Raw[int](r))
+	defer func() { defer func() { recover() }(); sub.Unsubscribe() }()
+	checked := 0
+	var wantTrace []string
+	for i := 0; i < n; i++ {
+		v := i + 1
+		if st, _, _ := quiesce.Call(func() { defer func() { recover() }(); outer.Send(src.Notif{K: rec.Next, V: v}) }, 10*time.Second); st != quiesce.Returned {
+			return driver.Result{Verdict: driver.Inconclusive, Key: "producer-blocked-in-library", Msg: name + ": the producer's call never returned", Dirty: true}
+		}
+		wantTrace = append(wantTrace, fmt.Sprint(v*10), fmt.Sprint(v*10+1))
+		checked++
+		if got := r.TraceString(); got != strings.Join(wantTrace, " ") {
+			res.Verdict, res.Key = driver.Violated, "C08/"+op+"/output-not-delivered-when-next-returned"
+			res.Msg = fmt.Sprintf("%s: when the producer's Next(%d) returned the observer had received [%s]; the output of that value is [%s]", name, v, got, strings.Join(wantTrace, " "))
+			return res
+		}
+	}
+	switch end {
+	case "C":
+		quiesce.Call(func() { defer func() { recover() }(); outer.Send(src.Notif{K: rec.Complete}) }, 10*time.Second)
+		wantTrace = append(wantTrace, "C")
+	case "E":
+		quiesce.Call(func() { defer func() { recover() }(); outer.Send(src.Notif{K: rec.Error}) }, 10*time.Second)
+		wantTrace = append(wantTrace, "E(src-error)")
+	}
+	if end != "-" {
+		checked++
+		if got := r.TraceString(); got != strings.Join(wantTrace, " ") {
+			res.Verdict, res.Key = driver.Violated, "C08/"+op+"/output-not-delivered-when-next-returned"
+			res.Msg = fmt.Sprintf("%s: when the producer's terminal call returned the observer had received [%s]; expected [%s]", name, got, strings.Join(wantTrace, " "))
+			return res
+		}
+	}
+	res.Events = int64(r.Len()) + int64(checked)
+	res.Nontrivial = true
+	res.Sig = fmt.Sprintf("ho/%s/%d/%s/%s→%s", op, n, c.Get("gap"), end, r.TraceString())
+	res.Sample = map[string]any{"pipeline": name, "outer_values": n, "producer_calls_checked": checked, "trace": r.TraceString()}
 	return res
 }
 
@@ -482,6 +567,8 @@ func runCase(c driver.Case) driver.Result {
 		return runSyncMulti(c)
 	case "handoff":
 		return runHandoff(c)
+	case "ho":
+		return runHO(c)
 	}
 	return runSync(c)
 }
